@@ -37,10 +37,8 @@ func classLen(cl string, huge int) int {
 }
 
 func checkC17(c *Ctx) error {
-	huge := 300000
-	if c.Tier == "thorough" {
-		huge = 1 << 20
-	}
+	// the upper end of the property's quantifier: a line of exactly 1 MiB
+	huge := 1 << 20
 	var mu sync.Mutex
 	cases := map[string]*struct {
 		sc      scanCase
